@@ -1752,6 +1752,55 @@ env.run(main())
 '''
 
 
+ASGI_SCRIPT = r'''
+import sys, json, asyncio, logging, os
+logging.disable(logging.CRITICAL)
+# the order a deployment follows (asgi.py / gunicorn): the web module first, the configuration file is read inside create_app()
+import nostr_relay.web as web
+import yaml
+conf_src, workdir = sys.argv[1], sys.argv[2]
+conf = yaml.safe_load(open(conf_src))
+conf["logging"] = None
+conf["garbage_collector"] = None
+conf["max_limit"] = 8
+conf["storage"] = {"sqlalchemy.url": "sqlite+aiosqlite:///" + os.path.join(workdir, "asgi.sqlite3"), "validators": ["nostr_relay.validators.is_signed"]}
+conf.pop("rate_limits", None)
+path = os.path.join(workdir, "asgi.yaml")
+yaml.safe_dump(conf, open(path, "w"))
+sys.path.insert(0, "/verif")
+async def main():
+    import falcon.testing
+    app = web.create_app(path)
+    from harness import env
+    from nostr_relay.storage import get_storage, get_metadata
+    st = get_storage()
+    out = {}
+    async with falcon.testing.ASGIConductor(app) as c:
+        async with st.db.begin() as conn:
+            await conn.run_sync(get_metadata().create_all)
+        async with c.simulate_ws("/", remote_addr="9.9.9.9") as ws:
+            for i in range(12):
+                await ws.send_json(["EVENT", env.mk_event(i % 3, 1, env.NOW - 100 + i, [["t", "x"]], "asgi%d" % i)])
+                await ws.receive_json()
+            for lim in (None, 0, 1, 7, 8, 9, 100):
+                f = {"kinds": [1]}
+                if lim is not None:
+                    f["limit"] = lim
+                await ws.send_json(["REQ", "s%s" % lim, f])
+                got = []
+                while True:
+                    m = await asyncio.wait_for(ws.receive_json(), 20)
+                    if m[0] == "EOSE":
+                        break
+                    if m[0] == "EVENT":
+                        got.append(m[2]["created_at"])
+                out[str(lim)] = got
+    print("RESULT " + json.dumps({"sql-asgi": out}))
+    os._exit(0)
+asyncio.run(main())
+'''
+
+
 def suite_cap_plain_subscribe(tier, seed):
     """max_limit configured before the storage modules are imported; REQs through the plain websocket subscribe path"""
     import json
@@ -1761,7 +1810,8 @@ def suite_cap_plain_subscribe(tier, seed):
     s = Suite("oracle:limit-cap-plain-subscribe")
     s.rule = ("fresh interpreter, Config.max_limit = 8 set before nostr_relay.storage is imported, 12 matching events stored, REQ {kinds:[1]} with "
               "limit in {absent,0,1,7,8,9,100,10^12} through BaseStorage.subscribe without any default_limit argument, both backends: "
-              "at most min(limit, 8) events, and they are the newest")
+              "at most min(limit, 8) events, and they are the newest; and the same through web.create_app(<yaml with max_limit: 8>) + websocket in a "
+              "fresh interpreter that imports nostr_relay.web BEFORE the configuration is read (what asgi.py does)")
     repo = os.environ.get("VERIF_REPO", "/repo")
     p = subprocess.run([sys.executable, "-c", CAP_SCRIPT, os.path.join(repo, "test", "test_config.yaml")],
                        stdout=subprocess.PIPE, stderr=subprocess.PIPE, timeout=300,
@@ -1772,6 +1822,21 @@ def suite_cap_plain_subscribe(tier, seed):
         s.disagree({"subprocess": "cap script"}, None, p.stderr.decode()[-1500:])
         return s
     out = json.loads(line[0][7:])
+    # the same through the assembled application in the order a deployment imports and configures it
+    import tempfile
+    import shutil
+    d = tempfile.mkdtemp(prefix="verif-asgi-")
+    try:
+        p2 = subprocess.run([sys.executable, "-c", ASGI_SCRIPT, os.path.join(repo, "test", "test_config.yaml"), d],
+                            stdout=subprocess.PIPE, stderr=subprocess.PIPE, timeout=300,
+                            env=dict(os.environ, PYTHONPATH="%s:/verif/shims:/verif" % repo))
+    finally:
+        shutil.rmtree(d, ignore_errors=True)
+    line2 = [l for l in p2.stdout.decode().splitlines() if l.startswith("RESULT ")]
+    if not line2:
+        s.disagree({"subprocess": "asgi script"}, None, p2.stderr.decode()[-1500:])
+    else:
+        out.update(json.loads(line2[0][7:]))
     newest = sorted([env.NOW - 100 + i for i in range(12)], reverse=True)
     for backend, res in out.items():
         for lim, got in res.items():
